@@ -41,11 +41,11 @@ theorem tagParser_np (kind : String) (s : Str) : tagParser kind s ≠ .panic := 
     simp only [tagParsers, AllArms]
     simp
 
-theorem dispatchIn_np (tbl : List (String × String)) (s : Str) : dispatchIn tbl s ≠ .panic := by
+theorem dispatchIn_np (tbl : List (String × String × Bool)) (s : Str) : dispatchIn tbl s ≠ .panic := by
   induction tbl with
   | nil => simp [dispatchIn]
   | cons e rest ih =>
-    obtain ⟨k, p⟩ := e
+    obtain ⟨k, p, ex⟩ := e
     simp only [dispatchIn]
     split
     · exact tagParser_np k s
@@ -148,12 +148,12 @@ theorem tagParser_byteRange (kind : String) (s : Str) (r : ByteRange)
     | err => rw [hs] at h; simp at h
     | panic => rw [hs] at h; simp at h
 
-theorem dispatchIn_byteRange (tbl : List (String × String)) (s : Str) (r : ByteRange)
+theorem dispatchIn_byteRange (tbl : List (String × String × Bool)) (s : Str) (r : ByteRange)
     (h : dispatchIn tbl s = .ok (.byteRange r)) : r.end_ ≤ u64Max := by
   induction tbl with
   | nil => simp [dispatchIn] at h
   | cons e rest ih =>
-    obtain ⟨k, p⟩ := e
+    obtain ⟨k, p, ex⟩ := e
     simp only [dispatchIn] at h
     split at h
     · exact tagParser_byteRange k s r h
